@@ -416,9 +416,7 @@ theorem Cfg.t46_hApply_M (c : Cfg) (k : List Frame) (r e : Nat) (rest : List Nat
   split <;> exact St.T46M.geTasksCheck (St.t46_applyValue_M c.st r e v hg) r e
 
 theorem Cfg.t46_invoke_M (c : Cfg) (k : List Frame) (r h e : Nat)
-    (hd : ∀ w, (c.st.handler h).kind = .waitDone w → (c.st.wait w).started = true ∧ ((c.st.wait w).flag = true →
-      (⟨(c.st.wait w).taskEvent, (c.st.wait w).task, some (c.st.wait w).parentGen⟩ : Task) ∈
-        (c.st.comp (c.st.rootOf (c.st.wait w).owner)).tasks))
+    (hd : ∀ w, (c.st.handler h).kind = .waitDone w → (c.st.wait w).started = true)
     (ht : ∀ w, (c.st.handler h).kind = .waitTick w → (c.st.wait w).started = true) :
     St.T46M c.st (c.invoke k r h e).st := by
   unfold Cfg.invoke
@@ -435,8 +433,7 @@ theorem Cfg.t46_invoke_M (c : Cfg) (k : List Frame) (r h e : Nat)
   · simp only [Cfg.popRet_st]; t46m
   · rename_i w hk
     simp only [Cfg.popRet_st]
-    obtain ⟨h1, h2⟩ := hd w hk
-    exact hSM.trans (St.t46_onWaitDone_M S w e (by rw [hSw]; exact h1) (by rw [hSw, hSr, hSc]; exact h2))
+    exact hSM.trans (St.t46_onWaitDone_M S w e (by rw [hSw]; exact hd w hk))
   · rename_i w hk
     simp only [Cfg.popRet_st]
     exact hSM.trans (St.t46_onWaitTick_M S w (by rw [hSw]; exact ht w hk))
